@@ -3,8 +3,11 @@
    for every client, as answered on every node, after EVERY event.
    case value: [ variant [guard; refresh_idx; hb; ptr] ; backend [ptr; incl] ; ttl ; mode (0 store | 1 session) ;
                  clients [x ...] ; ops [[code; a; b; c; d] ...] ; obs [ per op: [ per node: [ per client: [kind; n; c] ] ] ] ]
-   kind: 0 = not found / expired, 1 = found (n, c), 2 = any other error.  Tick durations are in ms. *)
-From TX Require Import Base.Val Model.ConnState.
+   kind: 0 = not found / expired, 1 = found (n, c), 2 = any other error.  Tick durations are in ms.
+   Session code 7 (StaleSweep n c: the node's periodic sweep finds control connection c silent beyond the heartbeat
+   timeout) is not an event of its own: ClientRegistry.CleanupStale removes c from the registry and calls
+   CloseConnection, i.e. it IS the event Close n c when c is a registered control connection, and nothing otherwise. *)
+From TX Require Import Base.Val Model.ConnState Model.ConnStateThreads.
 Open Scope N_scope.
 
 Definition dec_variant (v : tval) : variant :=
@@ -43,11 +46,19 @@ Definition fres_eqb (f : fres) (o : tval) : bool :=
 Definition obs_ok (answers : list fres) (o : tval) : bool :=
   forallb (fun node_obs => all2 fres_eqb answers (vl node_obs)) (vl o).
 
+Definition sess_step (v : variant) (b : backend) (ttl : N) (w : world) (op : tval) : world :=
+  if vn (vnth 0 op) =? 7
+  then match w_ctl w (vn (vnth 1 op)) (vn (vnth 2 op)) with
+       | Some _ => step v b ttl w (Close (vn (vnth 1 op)) (vn (vnth 2 op)))
+       | None => w
+       end
+  else step v b ttl w (dec_event op).
+
 Fixpoint check_session (v : variant) (b : backend) (ttl : N) (clients : list N) (w : world) (ops obs : list tval) : bool :=
   match ops, obs with
   | [], [] => true
   | op :: ops', o :: obs' =>
-      let w' := step v b ttl w (dec_event op) in
+      let w' := sess_step v b ttl w op in
       obs_ok (map (fun x => find v b w' 0 x) clients) o && check_session v b ttl clients w' ops' obs'
   | _, _ => false
   end.
@@ -61,11 +72,60 @@ Fixpoint check_store (v : variant) (b : backend) (ttl : N) (clients : list N) (n
   | _, _ => false
   end.
 
+(* ---- mode 2: a concurrent phase replayed at storage-call granularity (Model/ConnStateThreads.v) ----
+   ops = [ setup [[10|11|12; n; c; x; ctl] ...] ; threads [[0; n; x] | [1; n; c; x; ctl] | [2; n; c] | [3; n; c] ...] ; schedule [i ...] ]
+   obs = [ per thread: [kind; n; c] for lookups, [] otherwise ; per node: per client: [kind; n; c] after the phase ]
+   the schedule is the one the gated storage double actually executed (one entry = one storage call of that thread) *)
+Definition dec_prog (v : tval) : tprog :=
+  let a := vn (vnth 1 v) in let b := vn (vnth 2 v) in let c := vn (vnth 3 v) in
+  match vn (vnth 0 v) with
+  | 0 => TFind b
+  | 1 | 10 => TReg a b c (vbool (vnth 4 v))
+  | 2 | 11 => TUnreg b
+  | 3 | 12 => TRefresh b
+  | _ => TDone
+  end.
+
+(* one method invocation alone, to completion (at most 4 storage calls) *)
+Definition tseq (sh : tstore) (p : tprog) : tstore :=
+  let '(p1, s1) := tstep p sh in let '(p2, s2) := tstep p1 s1 in
+  let '(p3, s3) := tstep p2 s2 in let '(_, s4) := tstep p3 s3 in s4.
+
+Definition tres_ok (r : tres) (o : tval) : bool :=
+  match r with
+  | TFound n c => (vn (vnth 0 o) =? 1) && (vn (vnth 1 o) =? n) && (vn (vnth 2 o) =? c)
+  | TAbsent => vn (vnth 0 o) =? 0
+  end.
+
+Definition thread_ok (lo : tprog) (o : tval) : bool :=
+  match lo with
+  | TFindDone r => tres_ok r o
+  | TDone => true
+  | _ => false      (* the phase must have run every invocation to completion *)
+  end.
+
+Definition conc_final (ops : tval) : tstate :=
+  let sh0 := fold_left tseq (map dec_prog (vl (vnth 0 ops))) tempty in
+  trun (sh0, map dec_prog (vl (vnth 1 ops))) (map vnat (vl (vnth 2 ops))).
+
+Definition check_conc (clients : list N) (ops obs : tval) : bool :=
+  let s := conc_final ops in
+  all2 thread_ok (snd s) (vl (vnth 0 obs))
+  && forallb (fun node_obs => all2 tres_ok (map (tfind (fst s)) clients) (vl node_obs)) (vl (vnth 1 obs)).
+
+Definition enc_tres (r : tres) : tval :=
+  match r with TFound n c => VL [VN 1; VN n; VN c] | TAbsent => VL [VN 0; VN 0; VN 0] end.
+Definition predict_conc (clients : list N) (ops : tval) : tval :=
+  let s := conc_final ops in
+  VL [VL (map (fun lo => match lo with TFindDone r => enc_tres r | TDone => VL [] | _ => VL [VN 9] end) (snd s));
+      VL (map (fun x => enc_tres (tfind (fst s) x)) clients)].
+
 Definition check (c : tval) : bool :=
   let v := dec_variant (vnth 0 c) in
   let b := dec_backend (vnth 1 c) in
   let ttl := vn (vnth 2 c) in
   let clients := map vn (vl (vnth 4 c)) in
+  if vn (vnth 3 c) =? 2 then check_conc clients (vnth 5 c) (vnth 6 c) else
   if vn (vnth 3 c) =? 0
   then check_store v b ttl clients (0, empty_store) (vl (vnth 5 c)) (vl (vnth 6 c))
   else check_session v b ttl clients init (vl (vnth 5 c)) (vl (vnth 6 c)).
@@ -77,7 +137,7 @@ Fixpoint predict_session (v : variant) (b : backend) (ttl : N) (clients : list N
   match ops with
   | [] => []
   | op :: ops' =>
-      let w' := step v b ttl w (dec_event op) in
+      let w' := sess_step v b ttl w op in
       VL (map (fun x => enc_fres (find v b w' 0 x)) clients) :: predict_session v b ttl clients w' ops'
   end.
 
@@ -94,6 +154,7 @@ Definition predict (c : tval) : tval :=
   let b := dec_backend (vnth 1 c) in
   let ttl := vn (vnth 2 c) in
   let clients := map vn (vl (vnth 4 c)) in
+  if vn (vnth 3 c) =? 2 then predict_conc clients (vnth 5 c) else
   if vn (vnth 3 c) =? 0
   then VL (predict_store v b ttl clients (0, empty_store) (vl (vnth 5 c)))
   else VL (predict_session v b ttl clients init (vl (vnth 5 c))).
